@@ -83,9 +83,11 @@ def _cells():
         B(f"{nm}:sparse", f"utils.{nm}", [SPARSE], argclass="sparse where dense required")
     B("spectral_norm_2:real", "utils.spectral_norm_2", [REAL], argclass="real dtype")
     B("spectral_norm_2:sparse", "utils.spectral_norm_2", [SPARSE], argclass="sparse where dense required")
-    B("matrix_norm:ord_nuc", "utils.matrix_norm", [SQ, "nuc"], argclass="unknown option")
-    B("matrix_norm:ord_3", "utils.matrix_norm", [SQ, 3], argclass="unknown option")
-    B("matrix_norm:ord_-1", "utils.matrix_norm", [SQ, -1], argclass="unknown option")
+    # unknown option values of every flavour a weakened test could let through: other
+    # numbers, falsy values, wrong case, padded / prefixed strings, None where no default exists
+    for o in ("nuc", 3, -1, -2, 0, 0.0, "", False, 1.5, "FRO", "Fro", "f", "1", "2", "Inf", "infinity", "-inf"):
+        B(f"matrix_norm:ord_{o!r}", "utils.matrix_norm", [SQ, o], argclass="unknown option")
+    B("matrix_norm:ord_-inf", "utils.matrix_norm", [SQ, {"gen": "scale_val", "v": "-inf"}], argclass="unknown option")
     B("matrix_norm:real_ord1", "utils.matrix_norm", [REAL, 1], argclass="real dtype")
     B("matrix_norm:real_ord2", "utils.matrix_norm", [REAL, 2], argclass="real dtype")
     B("matrix_norm:real_ordinf", "utils.matrix_norm", [REAL, "inf"], argclass="real dtype")
@@ -113,17 +115,18 @@ def _cells():
         B(f"schur_pure_implicit:{nm}", "decomp.quaternion_schur_pure_implicit", [M], {"max_iter": 3}, argclass="non-square")
         B(f"schur_unified:{nm}", "decomp.quaternion_schur_unified", [M], {"max_iter": 3}, argclass="non-square")
         B(f"schur_experimental:{nm}", "decomp.schur.quaternion_schur_experimental", [M], {"max_iter": 3}, argclass="non-square")
-    B("det:type_foo", "utils.det", [SQ, "foo"], argclass="unknown option")
-    B("det:type_empty", "utils.det", [SQ, ""], argclass="unknown option")
+    for d in ("foo", "", "moore", "MOORE", "Moore ", "M", "dieudonne", "Dieudonn", "study", None, 0):
+        B(f"det:type_{d!r}", "utils.det", [HERM, d], argclass="unknown option")
     B("det:study", "utils.det", [SQ, "Study"], argclass="unsupported option (NotImplementedError)")
     B("adjoint:real", "utils.quaternion_to_complex_adjoint", [REAL], argclass="real dtype")
     B("adjoint:complex", "utils.quaternion_to_complex_adjoint", [CPLX], argclass="complex dtype")
-    B("adjoint:axis_y", "utils.quaternion_to_complex_adjoint", [SQ], {"axis": "y"}, argclass="unknown option")
+    for ax in ("y", "z", "X", "", None, 0):
+        B(f"adjoint:axis_{ax!r}", "utils.quaternion_to_complex_adjoint", [SQ], {"axis": ax}, argclass="unknown option")
     B("power_iteration_nonhermitian:axis_y", "utils.power_iteration_nonhermitian", [SQ],
       {"subfield_axis": "y", "max_iterations": 5}, argclass="unknown option")
     for fn in ("quat_null_space", "quat_kernel"):
-        B(f"{fn}:side_up", f"utils.{fn}", [SQ], {"side": "up"}, argclass="unknown option")
-        B(f"{fn}:side_Right", f"utils.{fn}", [SQ], {"side": "Right"}, argclass="unknown option")
+        for sd in ("up", "Right", "RIGHT", "", "r", "l", " left", None, 0, "both"):
+            B(f"{fn}:side_{sd!r}", f"utils.{fn}", [SQ], {"side": sd}, argclass="unknown option")
     # --- decomp: dtype, Hermitian, size, zero pivot
     for nm in ("quaternion_modulus", "quaternion_triu", "quaternion_tril", "quaternion_lu"):
         B(f"{nm}:real", f"decomp.{nm}", [REAL], argclass="real dtype")
@@ -160,23 +163,24 @@ def _cells():
     B("tensor_unfold:order2", "tensor.tensor_unfold", [SQ, 0], argclass="wrong tensor order")
     B("tensor_unfold:order4", "tensor.tensor_unfold", [T4, 0], argclass="wrong tensor order")
     B("tensor_unfold:real", "tensor.tensor_unfold", [T3R, 0], argclass="real dtype")
-    B("tensor_unfold:mode3", "tensor.tensor_unfold", [T3, 3], argclass="unknown option")
-    B("tensor_unfold:mode-1", "tensor.tensor_unfold", [T3, -1], argclass="unknown option")
+    for md in (3, -1, -3, 4, 1.5, "0", None, "mode0"):
+        B(f"tensor_unfold:mode_{md!r}", "tensor.tensor_unfold", [T3, md], argclass="unknown option")
+        B(f"tensor_fold:mode_{md!r}", "tensor.tensor_fold", [G(2, 12, 3), md, {"gen": "tuple", "items": [2, 3, 4]}],
+          argclass="unknown option")
     for mode, shp in ((0, (2, 12)), (1, (3, 8)), (2, (4, 6))):
         B(f"tensor_fold:shape_mode{mode}", "tensor.tensor_fold",
           [G(shp[0], shp[1] + 1, 3), mode, {"gen": "tuple", "items": [2, 3, 4]}], argclass="inconsistent fold shape")
         B(f"tensor_fold:shape_mode{mode}_swapped", "tensor.tensor_fold",
           [G(shp[1], shp[0], 3), mode, {"gen": "tuple", "items": [2, 3, 4]}], argclass="inconsistent fold shape")
-    B("tensor_fold:mode5", "tensor.tensor_fold", [G(2, 12, 3), 5, {"gen": "tuple", "items": [2, 3, 4]}],
-      argclass="unknown option")
     # --- qslst (assert-based guards)
     B("rgb_to_quat:2d", "qslst.rgb_to_quat", [{"gen": "real", "m": 4, "n": 4, "seed": 1}], argclass="wrong image shape")
     B("rgb_to_quat:4ch", "qslst.rgb_to_quat", [IMG], argclass="wrong image shape")
     B("quat_to_rgb:3ch", "qslst.quat_to_rgb", [{"gen": "realnd", "shape": [4, 4, 3], "seed": 1}], argclass="wrong image shape")
-    B("apply_blur_fft:boundary", "qslst.apply_blur_fft", [IMG, {"gen": "real", "m": 3, "n": 3, "seed": 2}],
-      {"boundary": "reflect"}, argclass="unknown option")
-    B("qslst_restore_fft:boundary", "qslst.qslst_restore_fft", [IMG, {"gen": "real", "m": 3, "n": 3, "seed": 2}, 0.1],
-      {"boundary": "zero"}, argclass="unknown option")
+    for bd in ("reflect", "zero", "Periodic", "PERIODIC", "p", "periodic ", "", None):
+        B(f"apply_blur_fft:boundary_{bd!r}", "qslst.apply_blur_fft", [IMG, {"gen": "real", "m": 3, "n": 3, "seed": 2}],
+          {"boundary": bd}, argclass="unknown option")
+        B(f"qslst_restore_fft:boundary_{bd!r}", "qslst.qslst_restore_fft",
+          [IMG, {"gen": "real", "m": 3, "n": 3, "seed": 2}, 0.1], {"boundary": bd}, argclass="unknown option")
     B("qslst_restore_matrix:opsize", "qslst.qslst_restore_matrix", [IMG, {"gen": "real", "m": 15, "n": 15, "seed": 2}, 0.1],
       argclass="inconsistent shape pair")
     B("qslst_restore_matrix:oprect", "qslst.qslst_restore_matrix", [IMG, {"gen": "real", "m": 16, "n": 15, "seed": 2}, 0.1],
@@ -234,6 +238,16 @@ def _cells():
     OK("in:eig:zero3x3", "decomp.quaternion_eigendecomposition", [{"gen": "zeros", "m": 3, "n": 3}])
     OK("in:hessenbergize:zero3x3", "decomp.hessenberg.hessenbergize", [{"gen": "zeros", "m": 3, "n": 3}])
     OK("in:det_dieudonne:rank1", "utils.det", [{"gen": "psvd", "m": 4, "n": 4, "sigma": [1.0, 0.0, 0.0, 0.0], "seed": 3}, "Dieudonne"])
+    for nm, Z in (("zero4x2", {"gen": "zeros", "m": 4, "n": 2}), ("zero2x4", {"gen": "zeros", "m": 2, "n": 4}),
+                  ("zero1x1", {"gen": "zeros", "m": 1, "n": 1}),
+                  ("rank1_4x3", {"gen": "psvd", "m": 4, "n": 3, "sigma": [1.0, 0.0, 0.0], "seed": 3})):
+        OKM(f"in:ns:{nm}", "ns", "compute", [Z])
+        OKM(f"in:hon:{nm}", "hon", "compute", [Z])
+        OKM(f"in:rsp:{nm}", "rsp", "compute", [Z])
+    OKM("in:cgne:rank1_4x3", "cgne", "compute", [{"gen": "psvd", "m": 4, "n": 3, "sigma": [1.0, 0.0, 0.0], "seed": 3}])
+    OKM("in:hybrid:rank1_4x3", "hybrid", "compute", [{"gen": "psvd", "m": 4, "n": 3, "sigma": [1.0, 0.0, 0.0], "seed": 3}])
+    OKM("in:cgne:zero4x2", "cgne", "compute", [{"gen": "zeros", "m": 4, "n": 2}])
+    OKM("in:hybrid:zero4x2", "hybrid", "compute", [{"gen": "zeros", "m": 4, "n": 2}])
     OKM("in:rsp_column:4x1", "rsp", "compute_column_variant", [COL])
     OKM("in:rsp_column:1x1", "rsp", "compute_column_variant", [ONE])
     OKM("in:rsp_row:1x4", "rsp", "compute_row_variant", [ROW])
